@@ -298,6 +298,37 @@ def _lines_at(sim, sha, path):
     return t.split("\n")[:-1] if t.endswith("\n") else t.split("\n")
 
 
+def _hunks(sim, sha, path):
+    """[(old_start, old_count, new_start, new_count)] of `git diff -U0 sha~1 sha -- path`; hunk bodies are skipped by
+    their counts, never pattern-matched"""
+    import re
+    rc, out, _ = sim.realgit("diff", "-U0", "--no-color", "--no-renames", "--no-ext-diff", sha + "~1", sha, "--", path)
+    if rc != 0:
+        return []
+    lines, k, res = out.split("\n"), 0, []
+    while k < len(lines):
+        m = re.match(r"^@@ -(\d+)(?:,(\d+))? \+(\d+)(?:,(\d+))? @@", lines[k])
+        if not m:
+            k += 1
+            continue
+        oc = int(m.group(2)) if m.group(2) is not None else 1
+        nc = int(m.group(4)) if m.group(4) is not None else 1
+        res.append((int(m.group(1)), oc, int(m.group(3)), nc))
+        k += 1
+        so = sn = 0
+        while k < len(lines) and (so < oc or sn < nc or lines[k].startswith("\\")):
+            if lines[k].startswith("\\"):
+                pass
+            elif lines[k].startswith("-") and so < oc:
+                so += 1
+            elif lines[k].startswith("+") and sn < nc:
+                sn += 1
+            else:
+                break
+            k += 1
+    return res
+
+
 def _blame_all(sim, rev):
     res = {}
     for p in sim.ls_files_at(rev):
@@ -465,6 +496,13 @@ def scenario(args):
                         run = []
                     if i is not None:
                         run.append(i)
+                # a hunk is also mixed when the lines it replaces were written by somebody else (in-place modification)
+                prev = _lines_at(simA, sa + "~1", p)
+                for os_, oc, ns, nc in _hunks(simA, sa, p):
+                    au = set(w.author_of.get(cur[j - 1], "?") for j in range(ns, ns + nc) if 1 <= j <= len(cur))
+                    au |= set(w.author_of.get(prev[j - 1], "?") for j in range(os_, os_ + oc) if 1 <= j <= len(prev))
+                    if len(au) >= 2:
+                        mixed |= set(range(ns, ns + nc))
                 clean[p] = surviving[p] - mixed
                 for i in ok_ls:
                     line_class[cur[i - 1]] = "K2" if i not in surviving[p] else ("K5" if i in mixed else None)
@@ -975,9 +1013,9 @@ def run(ctx):
                                "commits); the shortcut copies the original per-commit note",
                      "C15-K2": "C15-K2 the full replay starts from the end of the range: AI lines a commit adds that do not survive "
                                "unchanged to the last commit of the range are missing or credited to another session in its note",
-                     "C15-K5": "C15-K5 (root cause C02-K3) the full replay colours a whole re-inserted hunk by one author: in a hunk of "
-                               "added lines that mixes a person and a session, or two sessions, human lines become AI and lines change "
-                               "session; the shortcut keeps the original per-line attribution",
+                     "C15-K5": "C15-K5 (root cause C02-K3) the full replay colours a whole re-inserted hunk by one author: in a hunk that mixes "
+                               "authors (a person and a session, two sessions, or a line rewritten in place by another author) human lines "
+                               "become AI and lines change session; the shortcut keeps the original per-line attribution",
                      "C15-K3": "C15-K3 prompt counters (total_additions, total_deletions, accepted_lines, overriden_lines) written by the "
                                "full replay are not those of the original commit's record"}[k_["class"]]
             known(label)
